@@ -169,3 +169,17 @@ Proof.
   destruct (to_u5_go_shape bs 0 0 ltac:(lia)) as [pad [Hp [Hl _]]]. exists pad. split; [exact Hp|].
   unfold to_u5. lia.
 Qed.
+
+(** Statements in the form used by Props/C18.v *)
+Lemma bits_roundtrip_both bs : forallb byte_okb bs = true ->
+  from_u5_lax (to_u5 bs) = bs /\ from_u5_strict (to_u5 bs) = Some bs.
+Proof. intros Hb. split; [exact (bits_roundtrip_lax bs Hb) | exact (bits_roundtrip_strict bs Hb)]. Qed.
+
+Lemma bits_padding bs :
+  exists pad, 0 <= pad <= 4 /\
+    Z.of_nat (List.length (to_u5 bs)) * 5 = 8 * Z.of_nat (List.length bs) + pad /\
+    padding_ok (to_u5 bs) = ROk tt.
+Proof.
+  destruct (to_u5_length bs) as [pad [Hp Hl]]. exists pad.
+  exact (conj Hp (conj Hl (to_u5_padding_ok bs))).
+Qed.
